@@ -242,6 +242,19 @@ func (s *Sim) afterStep() {
 			s.alarm("C09", "deconfigured-ip-allocated", fmt.Sprintf("%s is not in the configuration in force but is allocated to %q", ip, e.Key))
 		}
 	}
+	for ip := range s.adminReserved {
+		if s.reloadDropped[ip] {
+			delete(s.adminReserved, ip)
+			continue
+		}
+		if st, ok := v.store[ip]; (!ok || !st.Reserved) && !lostReply {
+			s.alarm("C09", "admin-reservation-object-lost", fmt.Sprintf("the administrator's reserved FloatingIP object of %s is gone from the store (now: present=%v key=%q) although nobody unreserved it", ip, ok, st.Key))
+			delete(s.adminReserved, ip)
+		}
+		if e, ok := v.dump[ip]; ok && e.Key != "" && !e.Reserved && !lostReply {
+			s.alarm("C09", "admin-reserved-ip-allocated", fmt.Sprintf("%s is reserved by the administrator but IPAM allocated it to %q", ip, e.Key))
+		}
+	}
 	for _, p := range v.pods {
 		if b, ok := v.told[string(p.UID)]; ok && b.Seq > s.bindSeen {
 			for _, ip := range b.IPs {
@@ -547,8 +560,8 @@ func (s *Sim) checkProvider(v *view) {
 				continue
 			}
 			clause := "owner-changed-while-assigned"
-			if len(heldBy(s.prevDump, prev.Key)) > 1 {
-				clause += ":multi-ip-key"
+			if wl := s.wlByKey(pk); len(heldBy(s.prevDump, prev.Key)) > 1 || (wl != nil && len(rangeLists(wl.Ranges)) > 1) {
+				clause += ":multi-ip-key" // the key holds (or was bound with) several IPs
 			}
 			s.alarm("C10", clause, fmt.Sprintf("%s went from %q to %q while the provider still has it assigned to %s", ip, prev.Key, newKey, n))
 		}
